@@ -50,6 +50,10 @@ def run(name, patch, ids):
     repo = os.path.join(d, "repo")
     if not os.path.isdir(repo):
         setup(name)
+    # one run at a time per scratch name
+    import fcntl
+    lk = open(os.path.join(d, "run.lock"), "w")
+    fcntl.flock(lk, fcntl.LOCK_EX)
     sh(f"git -C {repo} checkout -q -- . && git -C {repo} clean -fdq")
     if patch not in ("-", "none"):
         r = sh(f"git -C {repo} apply {os.path.abspath(patch)}")
